@@ -27,6 +27,7 @@ class IntervalInterp:
     def _val(self, f, env, args, v, w=None):
         k = v['k']
         if k == 'c': return (v['v'], v['v'])
+        if k == 'null': return (0, 0)
         if k == 'i': return env[v['id']]
         if k == 'a': return args[v['n']]
         raise IUnmodelled('interval domain: operand %s' % k)
@@ -123,6 +124,12 @@ class IntervalInterp:
                     else: raise IUnmodelled('sext of possibly negative interval at %s' % i.loc)
                 elif op == 'icmp':
                     a, b = V(0), V(1); p = i.d['pred']; ob = i.d['op_bits']
+                    if (isinstance(a, tuple) and a and a[0] == 'ptr') or (isinstance(b, tuple) and b and b[0] == 'ptr'):
+                        # a pointer argument of the harness (a valid object) compared with NULL, e.g. assert(seed != NULL)
+                        other = b if (isinstance(a, tuple) and a and a[0] == 'ptr') else a
+                        if other != (0, 0) or p not in ('eq', 'ne'): raise IUnmodelled('interval domain: pointer comparison at %s' % i.loc)
+                        env[i.id] = (1, 1) if p == 'ne' else (0, 0)
+                        continue
                     t = fl = False
                     if p in ('slt', 'sle', 'sgt', 'sge'):
                         H = 1 << (ob - 1)
